@@ -20,23 +20,27 @@ ASSUMPTIONS = ['user-supplied automata and streams are outside the property']
 OPEN = ['raw::Fst::<D>::new', 'raw::Fst::<D>::get', 'raw::Fst::<D>::contains_key', 'inner_map::Map::<D>::new', 'inner_map::Map::<D>::get', 'inner_map::Map::<D>::contains_key',
         'inner_set::Set::<D>::new', 'inner_set::Set::<D>::contains']
 ALLOW = {
-    ("raw::StreamWithState", 'inp', 'push'): ('one byte per DFS frame (R03.5 lock step)', False),
-    ("raw::StreamWithState", 'stack', 'push'): ('one frame per key byte + 1 (R03.5 lock step)', False),
-    ("raw::ops::Union", 'outs', 'push'): ('<= k entries per key, cleared per candidate key', True),
-    ("raw::ops::Intersection", 'outs', 'push'): ('<= k entries per key, cleared per candidate key', True),
-    ("raw::ops::SymmetricDifference", 'outs', 'push'): ('<= k entries per key, cleared per candidate key', True),
-    ("raw::ops::Difference", 'outs', 'push'): ('one entry per key, cleared per candidate key', True),
-    ("raw::ops::Difference", 'key', 'extend'): ('copy of the current key, cleared first', True),
-    ("raw::ops::Slot", 'input', 'extend'): ('copy of the stream\'s current key, cleared first', True),
-    ("raw::ops::StreamHeap", 'heap', 'push'): ('at most one slot per input stream: only slots handed to refill are pushed', False),
+    ("raw::StreamWithState", 'Vec<u8'): ('one byte per DFS frame (R03.5 lock step)', False),
+    ("raw::StreamWithState", 'Vec<raw::StreamState'): ('one frame per key byte + 1 (R03.5 lock step)', False),
+    ("raw::ops::Union", 'Vec<raw::ops::IndexedValue'): ('<= k entries per key, cleared per candidate key', True),
+    ("raw::ops::Intersection", 'Vec<raw::ops::IndexedValue'): ('<= k entries per key, cleared per candidate key', True),
+    ("raw::ops::SymmetricDifference", 'Vec<raw::ops::IndexedValue'): ('<= k entries per key, cleared per candidate key', True),
+    ("raw::ops::Difference", 'Vec<raw::ops::IndexedValue'): ('one entry per key, cleared per candidate key', True),
+    ("raw::ops::Difference", 'Vec<u8'): ('copy of the current key, cleared first', True),
+    ("raw::ops::Slot", 'Vec<u8'): ('copy of the stream\'s current key, cleared first', True),
+    ("raw::ops::StreamHeap", 'BinaryHeap<raw::ops::Slot'): ('at most one slot per input stream: only slots handed to refill are pushed', False),
 }
 STREAM_ADTS = ['raw::StreamWithState', 'raw::Stream', 'raw::StreamState', 'raw::ops::Union', 'raw::ops::Intersection', 'raw::ops::Difference', 'raw::ops::SymmetricDifference',
                'raw::ops::StreamHeap', 'raw::ops::Slot', 'inner_map::Stream', 'inner_map::StreamWithState', 'inner_map::Keys', 'inner_map::Values', 'inner_map::Union', 'inner_map::Intersection',
                'inner_map::Difference', 'inner_map::SymmetricDifference', 'inner_set::Stream', 'inner_set::StreamWithState', 'inner_set::Union', 'inner_set::Intersection', 'inner_set::Difference',
                'inner_set::SymmetricDifference', 'inner_set::StreamZeroOutput', 'inner_map::StreamOutput', 'raw::node::Node', 'raw::FstRef', 'raw::Bound']
-INVENTORY = {('raw::StreamWithState', 'inp'), ('raw::StreamWithState', 'stack'), ('raw::ops::Union', 'outs'), ('raw::ops::Intersection', 'outs'), ('raw::ops::Difference', 'outs'),
-             ('raw::ops::Difference', 'key'), ('raw::ops::SymmetricDifference', 'outs'), ('raw::ops::StreamHeap', 'rdrs'), ('raw::ops::StreamHeap', 'heap'), ('raw::ops::Slot', 'input'),
-             ('raw::Bound', '0')}
+INVENTORY = None   # frozen below from the confirmed tree: (type, container type) multiset
+
+
+INV = {('raw::Bound', 'Vec<u8'): 2, ('raw::StreamWithState', 'Vec<raw::StreamState'): 1, ('raw::StreamWithState', 'Vec<u8'): 1,
+       ('raw::ops::Difference', 'Vec<raw::ops::IndexedValue'): 1, ('raw::ops::Difference', 'Vec<u8'): 1, ('raw::ops::Intersection', 'Vec<raw::ops::IndexedValue'): 1,
+       ('raw::ops::Slot', 'Vec<u8'): 1, ('raw::ops::StreamHeap', 'BinaryHeap<raw::ops::Slot'): 1, ('raw::ops::StreamHeap', 'Vec<std::boxed::Box'): 1,
+       ('raw::ops::SymmetricDifference', 'Vec<raw::ops::IndexedValue'): 1, ('raw::ops::Union', 'Vec<raw::ops::IndexedValue'): 1}
 
 
 def self_adt(f):
@@ -67,14 +71,32 @@ def run(ctx):
     for f, t, g, loc, kind in sites:
         if kind != 'state':
             continue
-        key = (self_adt(f), '.'.join(str(x) for x in loc[1:]), g.rsplit('::', 1)[-1])
-        bid = next(b for b, tt in f.calls() if tt is t)
-        if key in ALLOW:
-            bound, need_clear = ALLOW[key]
-            okc = (not need_clear) or growth.cleared_before(f, bid, loc)
-            ctx.check(R2, okc, 'site:%s.%s.%s' % key, 'growth of %s is allow-listed only because it is cleared first, and it no longer is' % key[1], fn=f, at=t.get('span'), detail=bound)
-        else:
-            ctx.violation(R2, 'site:%s.%s.%s' % key, 'a container rooted in stream state grows (%s on %s) at a site that is not on the allow-list: heap may now grow with the number of keys visited or emitted' % (key[2], key[1]), fn=f, at=t.get('span'))
+        from rules.C13 import recv_type
+        sites2 = [(f, loc)]
+        if len(loc) == 1 and 2 <= loc[0] <= f.arg_count:
+            # the receiver is a by-reference parameter (a helper shared by several streams): follow it to the callers' fields
+            res = growth.resolve_param_sites(lib, cg, f, loc)
+            if res is None:
+                ctx.undecided(R2, 'site:%s.param%d' % (self_adt(f), loc[0]), 'a container passed by reference grows in a helper whose callers cannot be followed', fn=f, at=t.get('span'))
+                continue
+            sites2 = res
+        for (sf, sloc) in sites2:
+            key = (self_adt(sf), recv_type(lib, sf, sloc))
+            path = '.'.join(str(x) for x in sloc[1:])
+            if key in ALLOW:
+                bound, need_clear = ALLOW[key]
+                okc = True
+                if need_clear:
+                    if sf is f:
+                        bid = next(b for b, tt in f.calls() if tt is t)
+                        okc = growth.cleared_before(f, bid, loc)
+                    else:
+                        # cleared in the caller before the helper is called
+                        cb = [b for b, tt in sf.calls() if sf.callee(tt) == f.path]
+                        okc = any(growth.cleared_before(sf, b, sloc) for b in cb)
+                ctx.check(R2, okc, 'site:%s.%s' % (key[0], path), 'growth of %s is allow-listed only because it is cleared first, and it no longer is' % path, fn=sf, at=t.get('span'), detail=bound)
+            else:
+                ctx.violation(R2, 'site:%s.%s' % (key[0], path), 'a container rooted in stream state grows (%s on %s: %s) at a site that is not on the allow-list: heap may now grow with the number of keys visited or emitted' % (g.rsplit('::', 1)[-1], path, key[1]), fn=sf, at=t.get('span'))
     # per-step allocations other than the allow-listed growth
     als, _ = growth.alloc_sites(lib, cg, nexts)
     for g, t, x in als:
@@ -84,11 +106,11 @@ def run(ctx):
             # derived / manual Clone of user-visible types is reached only through the with-state stream's `state.clone()` on user automaton states
             continue
         ctx.violation(R2, 'alloc:%s@%s' % (x, g.path), 'a stream step allocates afresh (%s): per-key allocation that is not one of the bounded buffers' % x, fn=g, at=t.get('span'))
-    inv = {(a, f) for a, f, ty in growth.container_fields(lib, STREAM_ADTS)}
-    extra = inv - INVENTORY
-    for a, f in sorted(extra):
-        ctx.violation(R2, 'field:%s.%s' % (a, f), 'stream type %s gained a container field %s: a new place where per-key data can be retained' % (a, f), fn=a)
-    ctx.check(R2, not extra, 'inventory', 'container inventory of the stream types changed', detail=sorted(inv))
+    inv = growth.type_inventory(lib, STREAM_ADTS)
+    extra = {k: n for k, n in inv.items() if n > INV.get(k, 0)}
+    for (a, ty), n in sorted(extra.items()):
+        ctx.violation(R2, 'field:%s:%s' % (a, ty[:50]), 'stream type %s gained a container field of type %s: a new place where per-key data can be retained' % (a, ty[:70]), fn=a)
+    ctx.check(R2, not extra, 'inventory', 'container inventory of the stream types changed', detail=sorted('%s: %s x%d' % (a, t[:50], n) for (a, t), n in inv.items()))
     fx = ctx.fixture
     fcg = CallGraph(fx)
     als, _ = growth.alloc_sites(fx, fcg, ['Holder::ctl_alloc_lookup'])
